@@ -808,7 +808,19 @@ def emit() -> str:
     air_t = parse(AIR)
     link = class_def(base, "Link")
     air = class_def(air_t, "AirSpace")
-    op_link = _link_can_transmit(link)
+    try:
+        op_link = _link_can_transmit(link)
+    except ValueError:
+        # another shape: the comparison is read off the statement-by-statement translation (what the body MEANS — the `is_up` test
+        # included — is `C18_gen_link_can_transmit_body`, which then has no proof if the meaning changed)
+        from harness.extract.link_body import Tr as _Tr
+        term = _Tr().prog(_body(find_method(link, "can_transmit_frame")))
+        if ".le (.add .load .size) .cap" in term and ".lt " not in term:
+            op_link = "≤"
+        elif ".lt (.add .load .size) .cap" in term and ".le " not in term:
+            op_link = "<"
+        else:
+            raise
     op_air, key_admit = _air_can_transmit(air)
     is_up = _is_up(link)
     from harness.extract.link_body import Tr
